@@ -30,6 +30,13 @@ CLAIMED = {
     "C06": ("lock-region pairing and call-graph who-may-call",
             "reader holds the manifest read lock from list copy to last file open while compaction unlinks under the write lock; an "
             "open reader never returns to path-addressed storage", "5/C06"),
+    "C15": ("call-graph containment of error origins (commit-time per-document checks ⊆ add-time checks) with dominance over the WAL append",
+            "every function in which the segment build can originate a content error is also run by add_document before the WAL "
+            "append, with failure returning an error; nothing fallible runs between append and queue push", "5/C15"),
+    "C16": ("panic-source enumeration over the call graph with local discharge patterns and a reasoned table; validator dominance",
+            "every explicit unwrap/expect/panic!/assert!/unreachable! reachable from IndexReader::search is discharged by a local "
+            "pattern or reasoned; request validators dominate segment execution; front ends enter only through IndexReader::search "
+            "(compiler-inserted checks, allocation, recursion depth, termination not decided)", "5/C16"),
     "C17": ("four-way sibling-table agreement, verify-before-use dominance, codec table inversion, read-site integrity flow, panic-source enumeration",
             "segment file table agrees across write/hash/compare/remove with matching checksum names; checksum comparison dominates "
             "every content read at open and a mismatch is an error; fast-field codec tables inverse and exhaustive; every file read on "
